@@ -65,6 +65,35 @@ let () =
         let x = operand_of x and y = operand_of y and f = op2 (getS op) in
         { model = show_operand (Some (outer f x y)); spec = show_operand (Some (outer_spec f x y)); dom = posb (fst x) && posb (fst y) }
     | _ -> failwith "outer");
+  (* defer S:form S:kind A1 B1 I:c1 A2 B2 I:c2 — deferred evaluation: the composed view is a VALUE over its leaf arrays, so the
+     result of each helper call is the composition of the element-wise models on that call's own data *)
+  register "defer" (fun args -> match args with
+    | [form; _; a1; b1; c1; a2; b2; c2] ->
+        let form = getS form in
+        let neg x = (fst x, fun i -> Z.opp (snd x i)) in
+        let scalar v = ([], fun _ -> v) in
+        let bind o f = match o with Some x -> f x | None -> None in
+        let where_f c x y = if c = Z0 then y else x in
+        (* u2 / u3 / out: the model functions or their specifications *)
+        let eval u2 u3 out a b c =
+          let a = operand_of a and b = operand_of b and k = Z.add (getI c) one in
+          (match form with
+           | "u1" -> Some (ufunc1 (op1 "lin1") (ufunc1 Z.opp a))
+           | "binl" -> u2 (op2 "lin") (neg a) b
+           | "binr" -> u2 (op2 "lin") a (neg b)
+           | "bins" -> bind (u2 Z.add a (scalar k)) (fun x -> bind (u2 Z.mul b (scalar (Z.add k one))) (fun y -> u2 (op2 "lin") x y))
+           | "outl" -> Some (out (op2 "lin") (neg a) b)
+           | "outr" -> Some (out (op2 "lin") a (neg b))
+           | "outs" -> Some (out Z.sub (neg (ufunc1 (op1 "lin1") a)) (ufunc1 (op1 "square") (neg (neg b))))
+           | "wh" -> u3 where_f (neg a) (neg b) (scalar k)
+           | f -> failwith ("defer form " ^ f)) in
+        let m2 f x y = ufunc2 f x y and m3 f x y z = ufunc3 f x y z and mo f x y = outer f x y in
+        let s2 f x y = ufunc2_spec f x y and s3 f x y z = ufunc3_spec f x y z and so f x y = outer_spec f x y in
+        let pos_all = List.for_all (fun x -> match x with A (s, _) -> posb s | _ -> true) [a1; b1; a2; b2] in
+        { model = show_operand (eval m2 m3 mo a1 b1 c1) ^ " | " ^ show_operand (eval m2 m3 mo a2 b2 c2);
+          spec = show_operand (eval s2 s3 so a1 b1 c1) ^ " | " ^ show_operand (eval s2 s3 so a2 b2 c2);
+          dom = pos_all }
+    | _ -> failwith "defer");
   register "ident" (fun _ -> { model = "ok"; spec = "ok"; dom = false });
   register "dtype" (fun a -> match a with
     | [op; t1; t2] ->
